@@ -484,6 +484,28 @@ fn arg_forms<P: Target>(v: Variant, e: &mut Eng) {
     }
 }
 
+/// The liveness half of the handle-sequence engine for C16 ("no safe program can obtain a Reference
+/// that outlives the object it points to"): all sequences of `depth` handle operations on every
+/// variant; only clone / to_dyn! / borrow / drop are used, all safe once the Reference exists.
+pub fn liveness(e: &mut Eng, depth: usize, budget: Budget) {
+    for v in variants() {
+        par_seqs(e, 5 * SLOTS, depth, budget, |seq, e| {
+            e.outcome(h64(&(v as u8, seq)));
+            run_seq::<Pl>(v, seq, e)
+        });
+    }
+    arg_forms_all(e);
+}
+fn arg_forms_all(f: &mut Eng) {
+    for v in variants() {
+        if v.dyn_listed() {
+            arg_forms::<Pl>(v, f);
+            arg_forms::<PlWide>(v, f);
+            arg_forms::<PlPage>(v, f);
+        }
+    }
+}
+
 pub fn run(ctx: &Ctx) -> Vec<Eng> {
     if std::env::var("VERIF_ISOLATE").is_ok() {
         return isolate(ctx);
@@ -533,13 +555,7 @@ pub fn run(ctx: &Ctx) -> Vec<Eng> {
         "for each variant the macro lists x 3 target layouts x 10 argument expression forms (variable, clone(), Option::take().unwrap(), Vec::pop().unwrap(), Iterator::next().unwrap(), mem::replace, a block with a side effect, a call that builds a fresh target, a clone converted while a shared / a mutable borrow of the original is held - the conversion itself borrows nothing) over two distinguishable targets: the conversion evaluates its argument exactly once, reads the value of the object that evaluation denotes, and a write through it is seen by the harness' witness clone of that object and not by the other target",
         "10 argument forms x listed variants x 3 layouts (complete for this family)",
     );
-    for v in variants() {
-        if v.dyn_listed() {
-            arg_forms::<Pl>(v, &mut f);
-            arg_forms::<PlWide>(v, &mut f);
-            arg_forms::<PlPage>(v, &mut f);
-        }
-    }
+    arg_forms_all(&mut f);
     f.max_depth = 1;
     vec![e, f]
 }
